@@ -5,7 +5,7 @@
     ([Unique] sound and complete, [NoSolution] only without solutions, [Definite] guidance never
     excluding a solution) is really violated.  [f14_refuted]: on the unchanged tree the
     contract IS violated inside the known class [f14_class] (DESIGN §5 F14). *)
-From Chalk Require Import Logic.Contract Logic.Meta.
+From Chalk Require Import Logic.Contract Logic.Meta Logic.Fuel Logic.Decide Logic.Classes.
 
 Theorem eval_correct : forall (fuel : nat) (P : program) (env : list clause) (rho : list ty) (g : goal) (b : bool),
   rr (allc P env) -> eval_goal fuel P env rho g = Some b -> (b = true <-> sat P env rho g).
@@ -84,3 +84,45 @@ Check f14b_refuted :
   check_answer 50 ContractExamples.P14b [] ContractExamples.q14b (AUnique [0%N; 0%N] [TVar 0; TVar 1])
     [[ContractExamples.tA; ContractExamples.tA]; [ContractExamples.tB; ContractExamples.tA]] = VOk /\
   f14b_class ContractExamples.P14 ContractExamples.q14 = false.
+
+Theorem eval_goal_fuel_sufficient : forall (g : goal) (fuel0 : nat) (P : program) (env : list clause) (rho : list ty) (n F : nat),
+  goal_ready fuel0 P env rho g = Some n -> fuel0 <= F -> n < F ->
+  exists b, eval_goal F P env rho g = Some b.
+Proof. exact Fuel.eval_goal_fuel_sufficient. Qed.
+Check eval_goal_fuel_sufficient : forall (g : goal) (fuel0 : nat) (P : program) (env : list clause) (rho : list ty) (n F : nat),
+  goal_ready fuel0 P env rho g = Some n -> fuel0 <= F -> n < F ->
+  exists b, eval_goal F P env rho g = Some b.
+
+Theorem check_answer_ok_sound : forall (fuel : nat) (P : program) (env : list clause) (q : query) (a : answer) (cands : list (list ty)),
+  rr (allc P env) -> wf_cls (allc P env) -> negfree (q_body q) = true -> wf_goal (q_body q) = true ->
+  answer_scoped q a = true -> covers P env q cands ->
+  check_answer fuel P env q a cands = VOk -> contract P env q a.
+Proof. exact Decide.check_answer_ok_sound. Qed.
+Check check_answer_ok_sound : forall (fuel : nat) (P : program) (env : list clause) (q : query) (a : answer) (cands : list (list ty)),
+  rr (allc P env) -> wf_cls (allc P env) -> negfree (q_body q) = true -> wf_goal (q_body q) = true ->
+  answer_scoped q a = true -> covers P env q cands ->
+  check_answer fuel P env q a cands = VOk -> contract P env q a.
+
+Theorem check_answer_closed_ok_sound : forall (fuel : nat) (P : program) (env : list clause) (g : goal) (a : answer),
+  rr (allc P env) -> wf_cls (allc P env) -> negfree g = true -> wf_goal g = true ->
+  answer_scoped (closed_query g) a = true ->
+  check_answer fuel P env (closed_query g) a [[]] = VOk -> contract P env (closed_query g) a.
+Proof. exact Decide.check_answer_closed_ok_sound. Qed.
+Check check_answer_closed_ok_sound : forall (fuel : nat) (P : program) (env : list clause) (g : goal) (a : answer),
+  rr (allc P env) -> wf_cls (allc P env) -> negfree g = true -> wf_goal g = true ->
+  answer_scoped (closed_query g) a = true ->
+  check_answer fuel P env (closed_query g) a [[]] = VOk -> contract P env (closed_query g) a.
+
+Theorem known_classes_narrow :
+  (forall P q, q_ubs q = [] -> f14_class P q = false /\ f14b_class P q = false /\ f1_class P q = false) /\
+  (forall P q, pcoind P = [] -> f14_class P q = false /\ f14b_class P q = false) /\
+  (forall fuel P g, pcoind P = [] -> f7q_class fuel P g = false /\ f7n_class fuel P g = false) /\
+  (forall fuel P q cands, pcoind P = [] -> f7q_query fuel P q cands = false) /\
+  (forall fuel P g, has_not g = false -> f7n_class fuel P g = false).
+Proof. exact Classes.known_classes_narrow. Qed.
+Check known_classes_narrow :
+  (forall P q, q_ubs q = [] -> f14_class P q = false /\ f14b_class P q = false /\ f1_class P q = false) /\
+  (forall P q, pcoind P = [] -> f14_class P q = false /\ f14b_class P q = false) /\
+  (forall fuel P g, pcoind P = [] -> f7q_class fuel P g = false /\ f7n_class fuel P g = false) /\
+  (forall fuel P q cands, pcoind P = [] -> f7q_query fuel P q cands = false) /\
+  (forall fuel P g, has_not g = false -> f7n_class fuel P g = false).
